@@ -271,7 +271,9 @@ def quantize_real(x,
     if data_std is None:
         data_mean, data_std = data_stream.estimate_stats(x, stats_calc_num_samples)
     
-    if data_std == 0:
+    # Constant input has zero variance, but its computed deviation is zero only
+    # up to the rounding of the mean (e.g. np.std(np.full(3, 0.1)) is 1.4e-17)
+    if data_std <= 16 * np.finfo(float).eps * abs(data_mean):
         factor = 0
     else:
         factor = target_std / data_std
